@@ -11,3 +11,9 @@ Definition x_C04_ok (v : val) : val :=
 From V Require Import C04Chain.
 Definition x_C04_chain (v : val) : val := chain_run v.
 Definition x_C04_chain_ok (v : val) : val := vbool (chain_ok (nthv 0 v) (nthv 1 v)).
+
+(* consumer faults in both callbacks (Model/C04Faults.v): field 14 of the case = what Consumer.Close does
+   per consumer; oracle [ok_faults], theorem C04_faults_model_passes_on_the_wire *)
+From V Require Import C04Faults.
+Definition x_C04_faults (v : val) : val := faults_run v.
+Definition x_C04_faults_ok (v : val) : val := vbool (ok_faults (dec_lcase (nthv 0 v)) (dec_obs (nthv 1 v))).
